@@ -333,6 +333,8 @@ pub fn alphabet(isa: &Isa, l: &Layout) -> Vec<Sym> {
     extra(&mut out, "SUBS #4,ERd", Fields { rd: 7, ..base }, "(SP)", true);
     extra(&mut out, "MOV.L ERs,ERd", Fields { rs: 1, rd: 0, ..base }, "(ER1 -> ER0)", false);
     extra(&mut out, "MOV.B Rs,@ERd", Fields { rs: 0xe, ra: 2, ..base }, "(R6L -> @ER2: operand rewrite)", true);
+    extra(&mut out, "JMP @ERn", Fields { ra: 1, ..base }, "(ER1: a small target address)", false);
+    extra(&mut out, "JSR @ERn", Fields { ra: 1, ..base }, "(ER1: a small target address)", false);
     extra(&mut out, "INC.L #1,ERd", Fields { rd: 2, ..base }, "(ER2)", false);
     extra(&mut out, "DEC.L #1,ERd", Fields { rd: 2, ..base }, "(ER2)", false);
     // ---- guest stores into the bus-controller registers (the settings change in the middle of a sequence)
